@@ -137,7 +137,11 @@ class C06(Check):
         knobs = draw_knobs(rng)
         knobs["SLEEP_TIMER"] = rng.choice([0.1, 0.3])
         knobs["STATE_MACHINE_TICKER"] = rng.choice([0.002, 0.005, 0.01, 0.02])
-        return {"mode": mode, "apps_idx": rng.randrange(3), "events": events, "timing": timing,
+        # other associations in the same process: a second node with a DIFFERENT configured peer has a
+        # capabilities exchange first ("poison": with the identity our impostor events use; "reject": it
+        # sees, and rejects, the identity of OUR configured peer)
+        aux = rng.choice([None, None, None, "poison", "reject"])
+        return {"mode": mode, "apps_idx": rng.randrange(3), "events": events, "timing": timing, "aux": aux,
                 "starts": starts, "gaps": [rng.choice([0.0, 0.0005, 0.003, 0.02]) for _ in events],
                 "consumer": rng.random() < 0.8,
                 "sched": draw_sched(rng), "knobs": knobs, "watchdog": rng.choice([1, 2]),
@@ -163,6 +167,10 @@ class C06(Check):
         if scn["timing"] == "concurrent":
             c = copy.deepcopy(scn)
             c["timing"] = "sequential"
+            yield c
+        if scn.get("aux"):
+            c = copy.deepcopy(scn)
+            c["aux"] = None
             yield c
 
     def nontrivial(self, res):
@@ -237,8 +245,9 @@ class C06(Check):
                      {"state": s, "wait_on": repr(t.wait_on), "blocked_for": sim.now - t.block_since})
 
         def released():
-            return all(t.state == "done" for t in w.lib_threads()) and \
-                all(s.state == "closed" and not s.selectors for s in w.node_socks())
+            # threads / sockets of the auxiliary node (if any) are not this node's business
+            return all(t.state == "done" for t in w.lib_threads() if t.tid > ctx.get("aux_tid", 0)) and \
+                all(s.state == "closed" and not s.selectors for s in w.node_socks() if s not in ctx.get("aux_socks", ()))
 
         def check_h8():
             if not sim.wait_until(lambda: w.state() == "Closed" and released(), Qmax, poll=Qmax / 40.0):
@@ -294,7 +303,47 @@ class C06(Check):
             ctx["alive"] = True
             return True
 
+        def run_aux(kind):
+            """A second Diameter node of this process, configured for ANOTHER peer, exchanges capabilities
+            before the node under test does.  Nothing about the auxiliary node itself is judged."""
+            from bromelia.setup import Diameter
+            from ref.peer import ScriptedPeer
+            bad_host, bad_realm = "intruder." + PEER_REALM, "elsewhere.example"
+            cfg = {"MODE": "SERVER", "APPLICATIONS": [], "LOCAL_NODE_HOSTNAME": "aux.local", "LOCAL_NODE_REALM": "realm.local",
+                   "LOCAL_NODE_IP_ADDRESS": "127.0.0.1", "LOCAL_NODE_PORT": 3870, "PEER_NODE_HOSTNAME": bad_host,
+                   "PEER_NODE_REALM": bad_realm, "PEER_NODE_IP_ADDRESS": "127.0.0.1", "PEER_NODE_PORT": 3870,
+                   "WATCHDOG_TIMEOUT": 30}
+            aux = Diameter(config=cfg)
+            w.call("aux_start", aux.start)
+            ap = ScriptedPeer(sim, w.net, bad_host, bad_realm, "aux.local", "realm.local", w.hist,
+                              behaviour={"answer_cer": "none", "answer_dwr": False}, name="auxpeer")
+            sim.wait_until(lambda: ("127.0.0.1", 3870) in w.net.listeners, 5.0, poll=tick)
+            done = []
+            ap.connect(("127.0.0.1", 3870), then=lambda p: done.append(1))
+            sim.wait_until(lambda: bool(done), 5.0, poll=tick)
+            sim.sleep(4 * tick)
+            if kind == "poison":
+                ap.send(C.cer(bad_host, bad_realm, hbh=0x9001, e2e=0x9002))
+                sim.wait_until(lambda: aux.get_current_state() == "R-Open", Qmax, poll=tick * 2)
+                ap.send(C.dwr(bad_host, bad_realm, hbh=0x9003, e2e=0x9004))
+                sim.sleep(6 * tick)
+                ap.send(C.dpr(bad_host, bad_realm, hbh=0x9005, e2e=0x9006))
+            else:
+                # the auxiliary node sees (and, being configured for someone else, rejects) OUR peer's identity
+                ap.send(C.cer(PEER_HOST, PEER_REALM, hbh=0x9001, e2e=0x9002))
+                sim.sleep(8 * tick)
+                ap.send(C.dwr(PEER_HOST, PEER_REALM, hbh=0x9003, e2e=0x9004))
+                sim.sleep(6 * tick)
+            sim.sleep(knobs["SLEEP_TIMER"] + 6 * tick)
+            ap.close()
+            sim.sleep(Qmin + 2 * knobs["TRACKING_SOCKET_EVENTS_TIMEOUT"])
+            sim.probe("aux_node_" + kind)
+
         def main(sim):
+            if scn.get("aux"):
+                run_aux(scn["aux"])
+                ctx["aux_tid"] = max(t.tid for t in sim.threads)
+                ctx["aux_socks"] = list(w.net.sockets)
             ctx["conn_target"] = 0
             starts_done = 0
             alive = start_connection(starts_done)
